@@ -19,7 +19,7 @@ from multiprocessing.reduction import ForkingPickler
 
 from mc import vmp
 
-ACK_TIMEOUT = 20.0
+ACK_TIMEOUT = 60.0
 
 
 def _fionread(fd):
